@@ -149,9 +149,9 @@ Definition ds_to_string (d : dstr) : option (list N) := do l <- ds_to_bytes d; S
 
 (* ------------------------------------------------------------------ the packed representation, directly *)
 (* big-endian packing of at most 32 bases into a block: base j at bit offset 62 - 2j, unused lanes zero *)
-Definition pack_be (g : dna) : N := rank g * 4 ^ N.of_nat (32 - length g).
-Definition ds_of_dna (l : dna) : dstr := mkds (map pack_be (chunks 32 l)) (length l).
-Definition dna_of_storage (st : list N) (len : nat) : dna :=
+Definition pack_be (g : list N) : N := rank g * 4 ^ N.of_nat (32 - length g).
+Definition ds_of_dna (l : list N) : dstr := mkds (map pack_be (chunks 32 l)) (length l).
+Definition dna_of_storage (st : list N) (len : nat) : list N :=
   map (fun i => (nth (i / 32) st 0 / 4 ^ N.of_nat (31 - i mod 32)) mod 4) (seq 0 len).
 (* representation invariant: exactly ceil(len/32) blocks, each < 2^64, lanes beyond len are zero *)
 Definition ds_inv (d : dstr) : bool :=
